@@ -35,7 +35,80 @@ func (x *Exec) keyID(st *State, kt types.Type, v Value) (*Term, bool) {
 			return sc.T, true
 		}
 	}
+	switch v.(type) {
+	case St, Ar:
+		// struct and array keys: an uninterpreted function of the flattened
+		// components (equal keys have equal ids; nothing is assumed about
+		// different keys, the injective reading is one of the models)
+		ts, ok := x.keyParts(st, kt, v)
+		if !ok {
+			return nil, false
+		}
+		name := "keyid_" + safeIdent(typeKey(kt))
+		if x.ar.BV {
+			name += "_bv"
+		}
+		d, ok := stridDecls[name]
+		if !ok {
+			var ps []*Sort
+			for _, t := range ts {
+				ps = append(ps, t.S)
+			}
+			d = &FuncDecl{Name: name, Params: ps, Ret: IntSort}
+			stridDecls[name] = d
+		}
+		if len(d.Params) == len(ts) {
+			return App(d, ts...), true
+		}
+	}
 	return nil, false
+}
+
+// keyParts: the scalar parts a comparable value's identity depends on, so that
+// Go-equal values get equal parts: integers and pointers themselves, strings
+// by their string id, fixed-size arrays element by element, structs field by
+// field.
+func (x *Exec) keyParts(st *State, t types.Type, v Value) ([]*Term, bool) {
+	switch u := t.Underlying().(type) {
+	case *types.Struct:
+		sv, ok := v.(St)
+		if !ok || len(sv.Fields) != u.NumFields() {
+			return nil, false
+		}
+		var out []*Term
+		for i := 0; i < u.NumFields(); i++ {
+			ps, ok := x.keyParts(st, u.Field(i).Type(), sv.Fields[i])
+			if !ok {
+				return nil, false
+			}
+			out = append(out, ps...)
+		}
+		return out, true
+	case *types.Array:
+		av, ok := v.(Ar)
+		if !ok || u.Len() > 64 || len(av.Comp) != 1 {
+			return nil, false
+		}
+		var out []*Term
+		for i := int64(0); i < u.Len(); i++ {
+			out = append(out, Select(av.Comp[0], x.ar.idxC(i)))
+		}
+		return out, true
+	}
+	if k, ok := x.keyID(st, t, v); ok {
+		return []*Term{k}, true
+	}
+	return nil, false
+}
+
+func safeIdent(s string) string {
+	b := []byte(s)
+	for i, c := range b {
+		if !(c >= 'a' && c <= 'z' || c >= 'A' && c <= 'Z' || c >= '0' && c <= '9') {
+			b[i] = '_'
+		}
+	}
+	return string(b)
 }
 
 func (x *Exec) mapKeySort() *Sort { return IntSort }
@@ -94,4 +167,12 @@ func (x *Exec) mapIndexModel(e *ast.IndexExpr, st *State, u *types.Map) Value {
 		return Tu{[]Value{v, Sc{has}}}
 	}
 	return v
+}
+
+// newMap: a freshly allocated, empty map.
+func (x *Exec) newMap(st *State, what string) *Term {
+	p := x.alloc(st, what)
+	h := x.mapHasArr(st)
+	st.heap["map:has"] = Store(h, p, ConstArr(ArrSort(IntSort, BoolSort), False))
+	return p
 }
